@@ -390,7 +390,16 @@ def strategies():
         return dict(family="F", params=dict(modes=modes))
 
     @st.composite
-    def ks_spec(draw, boosted=True):
+    def ks_spec(draw, boosted=True, inside=False):
+        if inside:
+            # the box (about [-1,1]^3) lies between r = 3 and r = 7 of a hole
+            # of mass 6 (horizon at r = 12): H = M/r in 0.85 .. 2, so that
+            # beta_k beta^k = 4H^2/(1+2H) exceeds alpha^2 = 1/(1+2H)
+            M = draw(f(5.5, 6.5))
+            rot = [draw(f(-1, 1)) for _ in range(3)]
+            d = [draw(f(4.6, 5.2)), draw(f(-0.5, 0.5)), draw(f(-0.5, 0.5))]
+            return dict(family="KS", params=dict(
+                M=M, boost=[0.0, 0.0, 0.0], rot=rot, offset=[0.0] + d))
         M = draw(f(0.05, 0.3))
         boost = [draw(f(-0.3, 0.3)) for _ in range(3)] if boosted \
             else [0.0, 0.0, 0.0]
@@ -411,8 +420,9 @@ def strategies():
         return dict(family="FL", params=dict(
             N=[0.0 if unit_lapse else draw(f(0.1, 0.4)), draw(f(0.5, 2)),
                draw(f(0, 6.28))],
-            a=[draw(f(0.7, 1.5)), draw(f(0.05, 0.4)), draw(f(0.0, 0.1)),
-               draw(f(0.5, 2))]))
+            # scale factor O(1), or tiny (det gamma = a^6 down to 1e-18)
+            a=[draw(st.one_of(f(0.7, 1.5), st.sampled_from([0.03, 0.002]))),
+               draw(f(0.05, 0.4)), draw(f(0.0, 0.1)), draw(f(0.5, 2))]))
 
     return dict(wavy=wavy_spec, flat=flat_spec, ks=ks_spec, pp=pp_spec,
                 fl=fl_spec, f=f)
